@@ -622,6 +622,66 @@ class Translator:
             self.mag_real_keeps = True
         else:
             fail(xm.rel, blocks[0], 'Expr.magnitude: unrecognised real-valued branch')
+        # (h) do the rebuilding methods give the result the units of self; class chosen by convolve()
+        def body_src(name):
+            return [ast.unparse(b) for b in nodoc(method(ex, name, xm.rel).body)]
+
+        def units_stores(name):
+            return [ast.unparse(st) for st in ast.walk(method(ex, name, xm.rel))
+                    if isinstance(st, (ast.Assign, ast.AugAssign)) and 'units' in ast.unparse(st.targets[0] if isinstance(st, ast.Assign) else st.target)]
+        self.keeps = {'sign': False, 'expand': False, 'subs': False}    # generic wrappers / _subs1: not switchable
+        for name, key, val in (('__abs__', 'abs', 'self.abs'), ('conjugate', 'conjugate', 'sym.conjugate(self.sympy)'),
+                               ('copy', 'copy', 'self.sympy')):
+            b = body_src(name)
+            if b == ['return self.__class__(%s, **self.assumptions)' % val]:
+                self.keeps[key] = False
+            elif b == ['ret = self.__class__(%s, **self.assumptions)' % val, 'ret.units = self.units', 'return ret']:
+                self.keeps[key] = True
+            else:
+                fail(xm.rel, method(ex, name, xm.rel), 'Expr.%s: unrecognised body' % name)
+        # simplify: the rebuilt object of the plain branch
+        sm = method(ex, 'simplify', xm.rel)
+        st = units_stores('simplify')
+        found = None
+        for n in ast.walk(sm):
+            for blk in (getattr(n, 'body', None), getattr(n, 'orelse', None)):
+                if isinstance(blk, list):
+                    srcs = [ast.unparse(x) for x in blk]
+                    if 'ret = self.__class__(ret, **self.assumptions)' in srcs:
+                        i = srcs.index('ret = self.__class__(ret, **self.assumptions)')
+                        found = (i + 1 < len(srcs) and srcs[i + 1] == 'ret.units = self.units')
+        if found is None or st != (['ret.units = self.units'] if found else []):
+            fail(xm.rel, sm, 'Expr.simplify: unrecognised handling of the rebuilt expression / its units')
+        self.keeps['simplify'] = found
+        b = body_src('limit')
+        if b[-1:] == ['return self.__class__(ret, **self.assumptions)'] and units_stores('limit') == []:
+            self.keeps['limit'] = False
+        elif b[-3:] == ['result = self.__class__(ret, **self.assumptions)', 'result.units = self.units', 'return result'] \
+                and units_stores('limit') == ['result.units = self.units']:
+            self.keeps['limit'] = True
+        else:
+            fail(xm.rel, method(ex, 'limit', xm.rel), 'Expr.limit: unrecognised tail')
+        for name, key, op in (('differentiate', 'diff', '/'), ('integrate', 'integ', '*')):
+            st = units_stores(name)
+            b = body_src(name)
+            if b[-1] != 'return result':
+                fail(xm.rel, method(ex, name, xm.rel), 'Expr.%s: does not end with `return result`' % name)
+            if st == ['result.units %s= arg.units' % op] and b[-2] == st[0]:
+                self.keeps[key] = False
+            elif st == ['result.units = self.units %s arg.units' % op] and b[-2] == st[0]:
+                self.keeps[key] = True
+            else:
+                fail(xm.rel, method(ex, name, xm.rel), 'Expr.%s: unrecognised units statement %s' % (name, st))
+        b = body_src('convolve')
+        U = 'ret.units = self.units * x.units * self.domain_units'
+        if b[-3:] == ['ret = self.__class__(result, **assumptions)', U, 'return ret'] and units_stores('convolve') == [U]:
+            self.conv_by_operand = False
+        elif b[-5:] == ['cls = self.__class__',
+                        "if self.quantity in ('transfer', 'undefined') and x.quantity != 'undefined':\n    cls = x.__class__",
+                        'ret = cls(result, **assumptions)', U, 'return ret'] and units_stores('convolve') == [U]:
+            self.conv_by_operand = True
+        else:
+            fail(xm.rel, method(ex, 'convolve', xm.rel), 'Expr.convolve: unrecognised tail')
         # (f) as_expr() of every class: `return self` or `return <Class>(self)`
         self.as_expr_cls = {}
         name2key = {cn: k for k, cn in self.classmap.items()}
@@ -858,6 +918,11 @@ class Translator:
             if v is not None:
                 out.append('  | %s, %s => Some (%s, %s)' % (DCOQ[d], QCOQ[q], DCOQ[v[0]], QCOQ[v[1]]))
         out.append('  | _, _ => None\n  end.\n')
+        out.append('Definition gen_keeps (o : unop) : bool :=\n  match o with')
+        for k, v in self.keeps.items():
+            if v:
+                out.append('  | U_%s => true' % k)
+        out.append('  | _ => false\n  end.\n')
         out.append('Definition T : tables := {|')
         out.append('  mul_tab := gen_mul_tab; div_tab := gen_div_tab; def_units := gen_def_units; has_class := gen_has_class;')
         out.append('  class_quantity := gen_class_quantity; class_domain := gen_class_domain; dom_units := gen_dom_units;')
@@ -865,6 +930,7 @@ class Translator:
         out.append('  mul_keeps_units := %s; div_keeps_units := %s;' % tuple('true' if self.keeps_units[m] else 'false' for m in ('__mul__', '__truediv__')))
         out.append('  rdiv_keeps_units := %s; compat_guard := %s; add_keeps_units := %s; ft_keeps_units := %s;' % tuple(
             'true' if b else 'false' for b in (self.rdiv_keeps_units, self.compat_guard, self.add_keeps_units, self.ft_keeps_units)))
+        out.append('  keeps := gen_keeps; conv_by_operand := ' + ('true' if self.conv_by_operand else 'false') + ';')
         out.append('  mag_real_keeps := %s; asq := gen_asq; as_expr_cls := gen_as_expr_cls; sites := gen_sites; flag_reads := gen_flag_reads |}.' % ('true' if self.mag_real_keeps else 'false'))
         return '\n'.join(out) + '\n'
 
